@@ -9,11 +9,11 @@ from ..model import close, convert
 ID = "C12"
 LEVEL = "exploration"
 ENGINE = "E3"
-QUICK_RUNS = 12000
+QUICK_RUNS = 10000
 THOROUGH_RUNS = 2000000
 QUICK_WALL = 90
 THOROUGH_WALL = 900
-CHUNK = 100
+CHUNK = 40
 OWN = {"link-value", "range-false-refuse", "range-not-refused", "link-exception", "push-raises", "link-units", "link-mask",
        "link-shape"}
 RENAME = {"link-value": "integral-value", "link-units": "integral-units"}
@@ -34,9 +34,18 @@ FR = [Fraction(1, 2), Fraction(1, 4), Fraction(3, 4), Fraction(1, 3)]
 
 def partition(tape, pubs, t_end):
     """strictly increasing request times from pubs[0] to t_end"""
-    mode = tape.weighted([("random", 5), ("single", 1), ("fine", 2), ("on_pubs", 2)])
+    mode = tape.weighted([("random", 5), ("single", 1), ("fine", 2), ("on_pubs", 2), ("near_pubs", 1)])
     t0 = pubs[0]
     ts = [t0]
+    if mode == "near_pubs":
+        # requests one second before / after publications (relative position within 1e-5 of an interval end where
+        # the gap is longer than a day)
+        eps = Fraction(1, 3600)
+        for p in pubs[1:]:
+            for q in (p - eps, p, p + eps):
+                if ts[-1] < q < t_end and tape.chance(1, 2):
+                    ts.append(q)
+        return ts + [t_end]
     if mode == "single":
         return ts + [t_end]
     if mode == "on_pubs":
